@@ -197,3 +197,78 @@ def actor_cell(F, R, rule, B, arms, var, set_variant, set_field, get_variant, la
     R.check(ok and rep, rule, "%s:%s:cell:%s" % (rule, fid, var), q.where(B, ga[1]) if ga else "-",
             "%s: `%s` is written only by %s (with the message's %s) and %s replies a copy of it" % (label, var, set_variant, set_field, get_variant),
             "%s: writes of `%s`: %s; %s replies the variable: %s" % (label, var, det, get_variant, rep))
+
+
+def handwritten_impls(F, trait_suffix, crates):
+    return [im for im in F.impls if str(im["trait"]).endswith(trait_suffix) and "Derive" not in str(im.get("exp")) and im["crate"] in crates]
+
+
+def faithful_clone(F, R, rule, im):
+    """A hand-written Clone must be content-blind and field-faithful:
+       (1) its branches only follow the structure (Option / iterator discriminants), never the contents (no comparison, is_empty, len ...),
+           including in workspace helpers it calls;
+       (2) a result field that is read from a parameter is read from the same-named field;
+       (3) every loop iteration pushes (no element is skipped)."""
+    ty = im["self_ty"]
+    todo = list(im["items"])
+    seen = set()
+    problems = []
+    n_fn = 0
+    while todo:
+        fid = todo.pop()
+        if fid in seen or fid not in F.fns:
+            continue
+        seen.add(fid)
+        todo += [f for f in F.fns if f.startswith(fid + "::{closure")]
+        fn = F.fns[fid]
+        B = mir.Body(fn, F)
+        R.touched(fid)
+        n_fn += 1
+        for sb in B.switch_blocks():
+            e = B.cond(sb)
+            while e[0] == "not":
+                e = e[1]
+            if e[0] != "discr":
+                what = q.base_name(e[1]).rsplit("::", 1)[-1] if e[0] == "call" else e[0]
+                problems.append("%s branches on the contents (%s) at line %s" % (fid.replace(ty, "Self"), what, B.line(sb)))
+        for bi, w, r, t in B.calls:
+            if w == mir.POLL:
+                continue
+            c = r or w or ""
+            cf = F.fns.get(c)
+            if cf is not None and cf["crate"] == fn["crate"] and not q.ends(c, "Clone::clone", "clone") and cf["kind"] in ("Fn", "AssocFn"):
+                todo.append(c)
+        # (2) field fidelity
+        for blk in B.blocks:
+            if blk["cleanup"]:
+                continue
+            for s in blk["stmts"]:
+                if s["k"] == "assign" and s["rv"]["k"] == "agg" and s["rv"]["ak"] == "adt" and s["rv"].get("fields"):
+                    for i, o in enumerate(s["rv"]["ops"]):
+                        fld = s["rv"]["fields"][i]
+                        for x in B.origins(o):
+                            if x[0] == "param" and x[2] and not str(x[2][0]).startswith("@") and not str(x[2][0]).isdigit() and x[2][0] != fld \
+                                    and fld in {l for a in F.adts.values() for v in a["variants"] for l in [f_.get("name") for f_ in v.get("fields", [])]}:
+                                problems.append("%s: field `%s` is filled from `%s.%s`" % (fid.replace(ty, "Self"), fld, x[1], ".".join(x[2])))
+        # (3) loops push every element
+        pushes = [c[0] for c in B.calls_named("Vec::push")]
+        for h in q.loop_headers(B):
+            body = B.reach([h]) & {b for b in range(len(B.blocks)) if h in B.reach([b])}
+            lp = [p for p in pushes if p in body]
+            nx = [c for c in B.calls_named("Iterator::next") if c[0] in body]
+            if not nx:
+                continue
+            if not lp:
+                problems.append("%s: loop at line %s pushes nothing" % (fid.replace(ty, "Self"), B.line(h)))
+                continue
+            dl = nx[0][3]["dest"]["l"]
+            some = []
+            for sb in B.switch_blocks():
+                e = B.cond(sb)
+                if e[0] == "discr" and e[1]["l"] == dl and not e[1]["p"]:
+                    some += [tg for tg, lab in B.succ(sb) if lab == mir.STD_VARIANTS["Some"]]
+            if not some or B.path(some, [h], cut_blocks=lp) is not None:
+                problems.append("%s: an iteration of the loop at line %s can skip the push" % (fid.replace(ty, "Self"), B.line(h)))
+    R.check(not problems, rule, "%s:%s:faithful-clone" % (rule, ty), "%s:%s" % (im["file"], im["line"]),
+            "hand-written Clone of %s is content-blind and field-faithful (%d function(s))" % (ty.rsplit("::", 1)[-1], n_fn),
+            "hand-written Clone of %s: %s" % (ty, "; ".join(problems)))
